@@ -1038,6 +1038,7 @@ class Executor:
                     qi = q.fork(); havoc(qi); qi.pc += [0 <= i, i < n, inv(self, qi.env, i, it)]
                     self.assign(st.target, it.t[0](i), qi)
                     qi.ghost = dict(qi.ghost, iter_index=i)
+                    qi.env[f'@loop{ordinal}'] = Int(i)        # ghost index, readable by the invariants of nested loops
                     for kind, r, v in self.block(st.body, [qi]):
                         if kind in ('fall', 'continue'):
                             self.oblige(f'loop{ordinal}.invariant.preserved', r.pc, inv(self, r.env, i + 1, it), r.exact)
